@@ -174,7 +174,16 @@ fn families(thorough: bool) -> Vec<Family> {
             v.push(cfg(*f, ranges));
         }
     }
-    fams.push(Family { name: "many-players", rule: "4..=10 players, each with an own combo; a combo shared by all (n<=6) or every third player; one combo colliding with the neighbour and one on the flop", configs: v, exact_prob: true, exhaustive: false });
+    // every table size the deck can seat at all: 11..=24 one-combo players on pairwise disjoint cards (23 players leave
+    // three unseen cards and three legal boards; 24 leave one card and none)
+    for f in [FLOPS8[3]] {
+        let d = deck_without(&f);
+        for n in 11..=24usize {
+            let ranges: Vec<Vec<(Combo, f32)>> = (0..n).map(|i| vec![(Combo::new(d[2 * i], d[2 * i + 1]), DYADIC[i % 3])]).collect();
+            v.push(cfg(f, ranges));
+        }
+    }
+    fams.push(Family { name: "many-players", rule: "4..=10 players, each with an own combo; a combo shared by all (n<=6) or every third player; one combo colliding with the neighbour and one on the flop; and 11..=24 one-combo players on disjoint cards (every table size the deck can seat)", configs: v, exact_prob: true, exhaustive: false });
     // weights at the edges of f32: exactly 0, products that are subnormal or underflow
     let mut v = vec![];
     for wset in [[0.0f32, 1e-20, 1.0], [f32::MIN_POSITIVE, 1e-30, 0.5], [0.0, 0.0, 1.0]] {
